@@ -488,6 +488,10 @@ def srv_alphabet():
     A['u_emptykey'] = lambda i, c: env(i, m=U, b='q', src='cliX', dst='srv', md=[['k', 'v'], ['', 'nokey']], c=c)
     A['s_open_emptykey'] = lambda i, c: env(i, m=S, src='cliX', dst='srv', md=[['', 'nokey'], ['k', 'v']], c=c)
     A['u_oddkeys'] = lambda i, c: env(i, m=U, b='q', src='cliX', dst='srv', md=[['-bin', 'QUJD'], [':path', '/x'], ['UPPER', 'V']], c=c)
+    # a binary key is binary however its name is spelled: undecodable and decodable values under -BIN / -Bin
+    A['u_badmd_upper'] = lambda i, c: env(i, m=U, b='q', src='cliX', dst='srv', md=[['Trace-Bin', '*** not base64 ***']], c=c)
+    A['s_open_badmd_upper'] = lambda i, c: env(i, m=S, src='cliX', dst='srv', md=[['X-BIN', '%%%']], c=c)
+    A['u_upperbin_ok'] = lambda i, c: env(i, m=U, b='q', src='cliX', dst='srv', md=[['Trace-BIN', 'AP8Q'], ['k-Bin', '']], c=c)
     A['s_open'] = lambda i, c: env(i, m=S, src='cliX', dst='srv', c=c)
     A['s_open_ss'] = lambda i, c: env(i, m='/verif.Svc/SS', src='cliX', dst='srv', c=c)
     A['s_open_baddst'] = lambda i, c: env(i, m=S, src='cliX', dst='nobody', c=c)
@@ -595,6 +599,9 @@ def cli_alphabet():
     # undecodable header metadata on an envelope that also ends the call (trailers-only replies)
     A['badmd_hdr_close_err'] = lambda i, m: env(i, m=m, md=[['h-bin', '***']], st=(7, 'denied'), t=[])
     A['badmd_hdr_close_ok'] = lambda i, m: env(i, m=m, md=[['h-bin', '***']], st=(0, 'OK'), t=[])
+    A['badmd_hdr_upper'] = lambda i, m: env(i, m=m, b='x', md=[['H-Bin', '***']])
+    A['badmd_trailer_upper'] = lambda i, m: env(i, m=m, st=(0, 'OK'), t=[['T-BIN', '***']])
+    A['upperbin_hdr_ok'] = lambda i, m: env(i, m=m, b='x', md=[['H-BIN', 'AP8Q']])
     A['hdr_emptykey'] = lambda i, m: env(i, m=m, b='x', md=[['k', 'v'], ['', 'nokey']])
     A['trailer_emptykey'] = lambda i, m: env(i, m=m, st=(0, 'OK'), t=[['', 'nokey'], [':status', '200']])
     A['rawbody'] = lambda i, m: env(i, m=m, braw='@7:%d' % (i + 11))
